@@ -10,6 +10,7 @@ statement (the `always` clause is asserted after every statement and on every ex
 """
 
 GHOSTS = {
+    "fs_islink": "map[str,bool]",
     "fs_exists": "map[str,bool]",
     "fs_content": "map[str,str]",
     "fs_mode": "map[str,int]",
@@ -62,6 +63,9 @@ CONTRACTS = {
         modifies=["ghost:fs_content"],
         ensures=["fs_content == store(old(fs_content), self.path, old(fs_content)[self.path] + s)"],
     ),
+    # not called by the unchanged tree; under (assumed) contract so that a change that starts to distinguish symbolic links is
+    # still verified against the all-or-nothing clauses instead of leaving the subset
+    "os.path.islink": ext(["path"], types={"path": "str"}, returns="bool", ensures=["result == fs_islink[path]"]),
     "os.chmod": ext(["path", "mode"], types={"path": "str", "mode": "int"}, raises=OSERRS, on_raise={"*": UNCHANGED}, modifies=["ghost:fs_mode"], ensures=["fs_mode == store(old(fs_mode), path, mode)"]),
     "os.replace": ext(
         ["src", "dst"],
